@@ -23,12 +23,14 @@ import (
 
 // Profile is what the registry can do.
 type Profile struct {
-	RefPageLimit int // Referrers API: at most this many descriptors per response, continued through a Link (0: one page)
-	Referrers bool `json:"referrers"` // Referrers API (and the OCI-Subject header on manifest PUT)
-	DigestHdr bool `json:"digesthdr"` // Docker-Content-Digest on blob / manifest responses
-	Range     bool `json:"range"`     // Accept-Ranges: bytes and Range requests on blobs
-	Mount     bool `json:"mount"`     // cross-repository blob mount
-	PageLimit int  `json:"pagelimit"` // server-imposed page size for tag listing (0: none)
+	RefPageLimit   int  `json:"refpagelimit"`   // Referrers API: at most this many descriptors per response, continued through a Link (0: one page)
+	NoServerFilter bool `json:"noserverfilter"` // Referrers API: the artifactType parameter is ignored (the client has to filter)
+	StrictAccept   bool `json:"strictaccept"`   // manifests are served only under a media type the request's Accept header lists
+	Referrers      bool `json:"referrers"`      // Referrers API (and the OCI-Subject header on manifest PUT)
+	DigestHdr      bool `json:"digesthdr"`      // Docker-Content-Digest on blob / manifest responses
+	Range          bool `json:"range"`          // Accept-Ranges: bytes and Range requests on blobs
+	Mount          bool `json:"mount"`          // cross-repository blob mount
+	PageLimit      int  `json:"pagelimit"`      // server-imposed page size for tag listing (0: none)
 }
 
 type manifest struct {
@@ -54,6 +56,7 @@ type Exchange struct {
 	Ref     string            `json:"ref"`   // digest or tag in the path
 	Query   map[string]string `json:"query"`
 	ReqCT   string            `json:"reqct"`
+	AcceptL []string          `json:"acceptl"` // media types of the Accept header
 	Accept  bool              `json:"accept"`
 	Range   string            `json:"range"`
 	BodyDg  string            `json:"bodydg"`
@@ -65,7 +68,7 @@ type Exchange struct {
 	Corrupt string            `json:"corrupt"` // which field of this response was corrupted ("" none)
 	Subject bool              `json:"ocisubject"`
 	Loc     string            `json:"loc"`
-	UpID    string            `json:"upid"` // upload session id issued by this response
+	UpID    string            `json:"upid"`            // upload session id issued by this response
 	Actor   string            `json:"actor,omitempty"` // ActorKey value of the request's context (which call issued it)
 }
 
@@ -200,6 +203,27 @@ func (r *Registry) putManifest(rp *repo, mediaType string, b []byte, tag string)
 	return d
 }
 
+// acceptList splits an Accept header into media types (parameters dropped).
+func acceptList(h string) []string {
+	out := []string{}
+	for _, p := range strings.Split(h, ",") {
+		p = strings.TrimSpace(strings.SplitN(p, ";", 2)[0])
+		if p != "" {
+			out = append(out, p)
+		}
+	}
+	return out
+}
+
+func accepts(l []string, mt string) bool {
+	for _, a := range l {
+		if a == mt || a == "*/*" {
+			return true
+		}
+	}
+	return false
+}
+
 func isDigest(s string) bool { _, err := digest.Parse(s); return err == nil }
 
 func (r *Registry) RoundTrip(req *http.Request) (*http.Response, error) {
@@ -209,7 +233,7 @@ func (r *Registry) RoundTrip(req *http.Request) (*http.Response, error) {
 		req.Body.Close()
 	}
 	ex := Exchange{Method: req.Method, Path: req.URL.EscapedPath(), Query: map[string]string{}, ReqCT: req.Header.Get("Content-Type"),
-		Accept: req.Header.Get("Accept") != "", Range: req.Header.Get("Range"), BodyLen: len(body)}
+		Accept: req.Header.Get("Accept") != "", AcceptL: acceptList(req.Header.Get("Accept")), Range: req.Header.Get("Range"), BodyLen: len(body)}
 	for k, v := range req.URL.Query() {
 		ex.Query[k] = strings.Join(v, ",")
 	}
@@ -345,6 +369,9 @@ func (r *Registry) RoundTrip(req *http.Request) (*http.Response, error) {
 		m, ok := rp.manifests[d]
 		switch req.Method {
 		case http.MethodGet, http.MethodHead:
+			if ok && r.Profile.StrictAccept && len(ex.AcceptL) > 0 && !accepts(ex.AcceptL, m.MediaType) {
+				ok = false // content negotiation: the manifest is not available under an acceptable media type
+			}
 			if ok {
 				status = 200
 				h.Set("Content-Type", m.MediaType)
@@ -436,7 +463,7 @@ func (r *Registry) RoundTrip(req *http.Request) (*http.Response, error) {
 			at := req.URL.Query().Get("artifactType")
 			for _, d := range ds {
 				m := rp.manifests[d]
-				if m.Subject == ref && (at == "" || m.ArtType == at) {
+				if m.Subject == ref && (at == "" || r.Profile.NoServerFilter || m.ArtType == at) {
 					ms = append(ms, ocispec.Descriptor{MediaType: m.MediaType, Digest: digest.Digest(d), Size: int64(len(m.Body)), ArtifactType: m.ArtType, Annotations: m.Ann})
 				}
 			}
@@ -462,7 +489,7 @@ func (r *Registry) RoundTrip(req *http.Request) (*http.Response, error) {
 			}
 			out, _ = json.Marshal(ocispec.Index{MediaType: ocispec.MediaTypeImageIndex, Manifests: ms})
 			h.Set("Content-Type", ocispec.MediaTypeImageIndex)
-			if at != "" {
+			if at != "" && !r.Profile.NoServerFilter {
 				h.Set("OCI-Filters-Applied", "artifactType")
 			}
 			status = 200
